@@ -124,14 +124,15 @@ type World struct {
 	GenesisTime uint32
 	BaseDir     string // data directory holding the closed base chain
 	Compress    bool   // UTXO records in the compressed format
+	Pad         int    // bytes of OP_RETURN padding in every base coinbase
 
-	baseBlocks [][]byte       // raw blocks of heights 1..BaseH
-	baseTx     map[int]*btc.Tx // base coinbases by height
-	txs        map[int]*btc.Tx
-	blocks     map[int][]byte
-	blkHash    map[int]*btc.Uint256
-	TxID       map[[32]byte]int // real txid -> abstract tx id
-	BlkID      map[[32]byte]int // real block hash -> abstract block id (0 = base tip, -h = base block of height h)
+	baseBlocks  [][]byte        // raw blocks of heights 1..BaseH
+	baseTx      map[int]*btc.Tx // base coinbases by height
+	txs         map[int]*btc.Tx
+	blocks      map[int][]byte
+	blkHash     map[int]*btc.Uint256
+	TxID        map[[32]byte]int // real txid -> abstract tx id
+	BlkID       map[[32]byte]int // real block hash -> abstract block id (0 = base tip, -h = base block of height h)
 	baseTipHash *btc.Uint256
 	baseTipTime uint32
 }
@@ -315,6 +316,10 @@ func (w *World) buildTx(t int) *btc.Tx {
 }
 
 func coinbaseTx(height uint32, extra int, outs []OutDef, commit []byte) *btc.Tx {
+	return coinbaseTxPad(height, extra, outs, commit, 0)
+}
+
+func coinbaseTxPad(height uint32, extra int, outs []OutDef, commit []byte, pad int) *btc.Tx {
 	tx := &btc.Tx{Version: 2}
 	ti := &btc.TxIn{Sequence: 0xffffffff}
 	ti.Input.Vout = 0xffffffff
@@ -322,6 +327,9 @@ func coinbaseTx(height uint32, extra int, outs []OutDef, commit []byte) *btc.Tx 
 	tx.TxIn = []*btc.TxIn{ti}
 	for _, o := range outs {
 		tx.TxOut = append(tx.TxOut, &btc.TxOut{Value: o.Amt.Sat(), Pk_script: PkScript(o.Addr, o.St)})
+	}
+	if pad > 0 {
+		tx.TxOut = append(tx.TxOut, &btc.TxOut{Value: 0, Pk_script: append([]byte{0x6a}, pushData(bytes.Repeat([]byte{byte(height)}, pad))...)})
 	}
 	if commit != nil {
 		tx.TxOut = append(tx.TxOut, &btc.TxOut{Value: 0, Pk_script: append([]byte{0x6a, 0x24, 0xaa, 0x21, 0xa9, 0xed}, commit...)})
@@ -483,8 +491,8 @@ func (n *Node) DumpUtxo() (ents []UtxoEnt, problems []string) {
 					continue
 				}
 				if vo >= len(outs) {
-					if isCb && vo == len(outs) && len(o.PKScr) == 38 && o.PKScr[0] == 0x6a && o.Value == 0 {
-						continue // the witness commitment output of a coinbase: not part of the abstract model
+					if isCb && len(o.PKScr) > 0 && o.PKScr[0] == 0x6a && o.Value == 0 {
+						continue // witness commitment / padding output of a coinbase: not part of the abstract model
 					}
 					problems = append(problems, fmt.Sprintf("tx %d has no output %d", id, vo+1))
 					continue
@@ -517,11 +525,41 @@ func (n *Node) Tip() (int, bool) {
 // NewWorld builds the base chain (heights 1..BaseH) in dir/base, closes it, and concretises every
 // transaction and block of the scenario.
 func NewWorld(sc Scenario, dir string, compress bool) (*World, error) {
-	w := &World{Sc: sc, Genesis: GenesisHash, Compress: compress, baseTx: map[int]*btc.Tx{}, txs: map[int]*btc.Tx{}, blocks: map[int][]byte{},
+	return NewWorldExt(sc, dir, WorldOpts{Compress: compress})
+}
+
+// WorldOpts: GenesisTime fixes the timestamps (0 = now - 5 days) so that several processes can rebuild the
+// same world; Pad adds a zero-value OP_RETURN output of that many bytes to every base coinbase (makes the
+// UTXO snapshot larger than one 64 KiB save buffer); ReuseBase skips building the base chain when
+// dir/base already holds it.
+type WorldOpts struct {
+	Compress    bool
+	GenesisTime uint32
+	Pad         int
+	ReuseBase   bool
+}
+
+func NewWorldExt(sc Scenario, dir string, o WorldOpts) (*World, error) {
+	compress := o.Compress
+	btc.EcdsaSignWithRFC6979 = true // deterministic signatures: every process rebuilds identical transactions
+	w := &World{Sc: sc, Genesis: GenesisHash, Compress: compress, Pad: o.Pad, baseTx: map[int]*btc.Tx{}, txs: map[int]*btc.Tx{}, blocks: map[int][]byte{},
 		blkHash: map[int]*btc.Uint256{}, TxID: map[[32]byte]int{}, BlkID: map[[32]byte]int{}}
-	w.GenesisTime = uint32(time.Now().Unix()) - 5*24*3600
+	w.GenesisTime = o.GenesisTime
+	if w.GenesisTime == 0 {
+		w.GenesisTime = uint32(time.Now().Unix()) - 5*24*3600
+	}
 	w.BaseDir = filepath.Join(dir, "base")
-	os.RemoveAll(w.BaseDir)
+	reuse := false
+	if o.ReuseBase {
+		if _, err := os.Stat(filepath.Join(w.BaseDir, "UTXO.db")); err == nil {
+			reuse = true
+		}
+	}
+	if !reuse {
+		os.RemoveAll(w.BaseDir)
+	}
+	savedTarget := utxo.UTXO_WRITING_TIME_TARGET
+	defer func() { utxo.UTXO_WRITING_TIME_TARGET = savedTarget }()
 	utxo.UTXO_WRITING_TIME_TARGET = 0
 	if compress {
 		// lib/utxo switches its record codec (package-level function variables) only when it LOADS a
@@ -531,16 +569,21 @@ func NewWorld(sc Scenario, dir string, compress bool) (*World, error) {
 		utxo.OneUtxoRec = utxo.OneUtxoRecC
 		utxo.Serialize = utxo.SerializeC
 	}
-	n := w.OpenNode(w.BaseDir, nil)
+	var n *Node
+	if !reuse {
+		n = w.OpenNode(w.BaseDir, nil)
+	}
 	parent := GenesisHash.Hash
 	ts := w.GenesisTime
 	for h := 1; h <= sc.BaseH; h++ {
 		ts += 600
-		cb := coinbaseTx(uint32(h), h, []OutDef{{Amt: Amt{U: 50}, Addr: 0, St: StP2SH}}, nil)
+		cb := coinbaseTxPad(uint32(h), h, []OutDef{{Amt: Amt{U: 50}, Addr: 0, St: StP2SH}}, nil, o.Pad)
 		raw := MakeBlock(0x20000000, parent, ts, MinBits, []*btc.Tx{cb})
-		acc, _, err := n.Deliver(raw)
-		if !acc {
-			return nil, fmt.Errorf("base block %d refused: %v", h, err)
+		if n != nil {
+			acc, _, err := n.Deliver(raw)
+			if !acc {
+				return nil, fmt.Errorf("base block %d refused: %v", h, err)
+			}
 		}
 		w.baseBlocks = append(w.baseBlocks, raw)
 		w.baseTx[h] = cb
@@ -555,7 +598,9 @@ func NewWorld(sc Scenario, dir string, compress bool) (*World, error) {
 		}
 	}
 	w.baseTipTime = ts
-	n.Close()
+	if n != nil {
+		n.Close()
+	}
 
 	// transactions in dependency order
 	var ids []int
